@@ -60,6 +60,19 @@ def _walk_yaml(x, out):
             _walk_yaml(y, out)
 
 
+# documents kept from minimised correspondence failures of earlier runs (they run first, as part of the corpus):
+# a hidden-channel `//` comment line between sections leaves two NEWLINE tokens in a row, which the optional
+# NEWLINE of `main` takes (Model/Parser.skip_dup_newline)
+EXTRA_CORPUS = [
+    "model\n  schema 1.1\n\ntype t\n  relations\n    define a: [t]\ntype u\n//\ncondition c(x: int) {\n  x > 0\n}\n",
+    "model\n  schema 1.1\n//\ntype t\n//\n",
+    "model\n  schema 1.1\n//\n//\ntype t\n",
+    "model\n  schema 1.1\n//\n\n//\n",
+    "module m\n// c\ntype t\n  relations\n    define a: [t]\n// d\ncondition c(x: int) {\n  x > 0\n}\n// e\n",
+    "model\n  schema 1.1\ntype t\n//\n//\ncondition c(x: int) {\n  x > 0\n}\n",
+]
+
+
 def corpus_dsl():
     """every DSL text under tests/data (files and yaml fields), de-duplicated, in a stable order"""
     root = os.path.join(core.REPO, "tests", "data")
@@ -74,6 +87,7 @@ def corpus_dsl():
             _walk_yaml(yaml.safe_load(open(p, encoding="utf-8")), out)
         except Exception:
             pass
+    out += EXTRA_CORPUS
     seen = set()
     res = []
     for d in out:
